@@ -103,6 +103,169 @@ theorem validateStage_same (c : Cfg) : RespectsV (Pipeline.validateStage c) := b
       simp only [hv, hw, ofValidate, Same, optO, ORel, reduceCtorEq, iff_false, false_iff, not_true_eq_false] at e ⊢
     · exact h
 
+/-! ## `ResolveEnvironment` (glue of loader.go; `Pipeline.resolveEnvironment`) — proved, for two spellings of the environment -/
+
+/-- two spellings of one environment: every variable has the same value -/
+def LookupSame (env env' : List (String × String)) : Prop := ∀ k, env.lookup k = env'.lookup k
+
+/-- a permutation of an environment with distinct names is another spelling of it -/
+theorem lookupSame_of_perm {env env' : List (String × String)} (hp : env'.Perm env)
+    (hn : (env.map Prod.fst).Nodup) : LookupSame env env' := by
+  intro k
+  induction hp with
+  | nil => rfl
+  | cons x _ ih =>
+    simp only [List.map_cons, List.nodup_cons] at hn
+    simp only [List.lookup, ih hn.2]
+  | swap x y l =>
+    simp only [List.map_cons, List.nodup_cons, List.mem_cons, not_or] at hn
+    simp only [List.lookup]
+    cases h1 : k == x.1 <;> cases h2 : k == y.1 <;> simp only []
+    exact absurd ((beq_iff_eq.mp h2).symm.trans (beq_iff_eq.mp h1)) (fun e => hn.1.1 e.symm)
+  | trans h12 h23 ih1 ih2 =>
+    have hn2 := ((h23.map Prod.fst).nodup_iff).mpr hn
+    rw [ih2 hn, ih1 hn2]
+
+/-- `for name, value := range m { m[name] = f(value) }` -/
+def mapVals (f : Val → Val) (m : KVs) : KVs := m.map fun kv => (kv.1, f kv.2)
+
+theorem travOpt_total (f : Val → Val) : ∀ m : KVs, travOpt (fun _ v => some (f v)) m = some (mapVals f m)
+  | [] => rfl
+  | (k, v) :: r => by simp only [travOpt, travOpt_total f r, mapVals, List.map_cons]
+
+/-- a loop that rewrites every value of a mapping by functions that respect the equivalence respects it -/
+theorem mapVals_mrel (f f' : Val → Val) (hf : ∀ x y, EW x y → EW (f x) (f' y)) {a b : KVs} (h : MRel a b) :
+    MRel (mapVals f a) (mapVals f' b) := by
+  have e := travOpt_meqv (fun _ v => some (f v)) (fun _ v => some (f' v)) h.1 h.2.1 h.2.2
+    (fun k x y hx hy => (hf x y ⟨h.1.2 k x y hx hy, h.2.1.2 k x hx, h.2.2.2 k y hy⟩).1)
+  rw [travOpt_total, travOpt_total] at e
+  refine ⟨e, travOpt_mwf _ h.2.1 (travOpt_total f a) ?_, travOpt_mwf _ h.2.2 (travOpt_total f' b) ?_⟩
+  · intro k x z hx hz
+    cases hz
+    exact (hf x x ⟨Eqv.refl x (h.2.1.2 k x hx), h.2.1.2 k x hx, h.2.1.2 k x hx⟩).2.1
+  · intro k y z hy hz
+    cases hz
+    exact (hf y y ⟨Eqv.refl y (h.2.2.2 k y hy), h.2.2.2 k y hy, h.2.2.2 k y hy⟩).2.2
+
+theorem mrel_lookup_none {a b : KVs} (h : MRel a b) {k : String} (hx : lookup k a = none) : lookup k b = none :=
+  (h.1.1 k).mp hx
+
+theorem mrel_lookup_some {a b : KVs} (h : MRel a b) {k : String} {x : Val} (hx : lookup k a = some x) :
+    ∃ y, lookup k b = some y ∧ EW x y := by
+  obtain ⟨y, hy, e⟩ := h.1.lookup_some hx
+  exact ⟨y, hy, e, h.2.1.2 k x hx, h.2.2.2 k y hy⟩
+
+theorem mrel_insert {a b : KVs} (h : MRel a b) (k : String) {x y : Val} (hxy : EW x y) :
+    MRel (insert k x a) (insert k y b) :=
+  ⟨MEqv.insert h.1 k hxy.1, MWF.insert h.2.1 k hxy.2.1, MWF.insert h.2.2 k hxy.2.2⟩
+
+/-- the body of the secrets / configs loop -/
+theorem resolveObj_ew (carrier : String) {env env' : List (String × String)} (hl : LookupSame env env') {x y : Val}
+    (h : EW x y) : EW (Secrets.resolveObj carrier env x) (Secrets.resolveObj carrier env' y) := by
+  obtain ⟨he, wx, wy⟩ := h
+  have he' := he
+  cases he with
+  | map h1 h2 =>
+    rename_i a b
+    have hm : MRel a b := ⟨⟨h1, h2⟩, WF.map_iff.mp wx, WF.map_iff.mp wy⟩
+    simp only [Secrets.resolveObj]
+    cases ha : lookup "environment" a with
+    | none => rw [mrel_lookup_none hm ha]; exact EW.map_iff.mpr hm
+    | some u =>
+      obtain ⟨u', hb, eu⟩ := mrel_lookup_some hm ha
+      rw [hb]
+      obtain ⟨e, _, _⟩ := eu
+      cases e with
+      | str s =>
+        simp only []
+        by_cases hs : s = ""
+        · simp only [hs, if_true]; exact EW.map_iff.mpr hm
+        · simp only [hs, if_false, ← hl s]
+          cases env.lookup s with
+          | none => exact EW.map_iff.mpr hm
+          | some found => exact EW.map_iff.mpr (mrel_insert hm carrier ⟨.str _, .str _, .str _⟩)
+      | _ => exact EW.map_iff.mpr hm
+  | _ => exact ⟨he', wx, wy⟩
+
+theorem resolveObjs_eq (carrier : String) (env : List (String × String)) : ∀ objs : KVs,
+    Secrets.resolveObjs carrier env objs = mapVals (Secrets.resolveObj carrier env) objs
+  | [] => rfl
+  | (n, cfg) :: r => by simp only [Secrets.resolveObjs, resolveObjs_eq carrier env r, mapVals, List.map_cons]
+
+theorem resolveSection_mrel (sect carrier : String) {env env' : List (String × String)} (hl : LookupSame env env')
+    {a b : KVs} (h : MRel a b) :
+    MRel (Secrets.resolveSection sect carrier env a) (Secrets.resolveSection sect carrier env' b) := by
+  simp only [Secrets.resolveSection]
+  cases ha : lookup sect a with
+  | none => rw [mrel_lookup_none h ha]; exact h
+  | some u =>
+    obtain ⟨u', hb, e, wu, wu'⟩ := mrel_lookup_some h ha
+    rw [hb]
+    cases e with
+    | map h1 h2 =>
+      simp only [resolveObjs_eq]
+      exact mrel_insert h sect (EW.map_iff.mpr (mapVals_mrel _ _ (fun x y => resolveObj_ew carrier hl)
+        ⟨⟨h1, h2⟩, WF.map_iff.mp wu, WF.map_iff.mp wu'⟩))
+    | _ => exact h
+
+/-- one element of `resolveServicesEnvironment` -/
+theorem resolveEnvItems_ew {env env' : List (String × String)} (hl : LookupSame env env') :
+    ∀ {xs ys : List Val}, Eqv (.seq xs) (.seq ys) →
+      EW (.seq (xs.filterMap (resolveEnvItem env))) (.seq (ys.filterMap (resolveEnvItem env')))
+  | [], _, h => by cases h; exact ⟨.seqNil, .seqNil, .seqNil⟩
+  | x :: xs, _, h => by
+    cases h with
+    | seqCons hx hr =>
+      have ih := resolveEnvItems_ew hl hr
+      cases hx with
+      | str s =>
+        simp only [List.filterMap_cons, resolveEnvItem, ← hl s]
+        cases env.lookup s with
+        | none => exact ⟨.seqCons (.str _) ih.1, .seqCons (.str _) ih.2.1, .seqCons (.str _) ih.2.2⟩
+        | some found => exact ⟨.seqCons (.str _) ih.1, .seqCons (.str _) ih.2.1, .seqCons (.str _) ih.2.2⟩
+      | _ => simpa only [List.filterMap_cons, resolveEnvItem] using ih
+
+theorem resolveServiceEnv_ew {env env' : List (String × String)} (hl : LookupSame env env') {x y : Val} (h : EW x y) :
+    EW (resolveServiceEnv env x) (resolveServiceEnv env' y) := by
+  obtain ⟨he, wx, wy⟩ := h
+  have he' := he
+  cases he with
+  | map h1 h2 =>
+    rename_i a b
+    have hm : MRel a b := ⟨⟨h1, h2⟩, WF.map_iff.mp wx, WF.map_iff.mp wy⟩
+    simp only [resolveServiceEnv]
+    cases ha : lookup "environment" a with
+    | none => rw [mrel_lookup_none hm ha]; exact EW.map_iff.mpr hm
+    | some u =>
+      obtain ⟨u', hb, e, _, _⟩ := mrel_lookup_some hm ha
+      rw [hb]
+      cases e with
+      | seqNil => exact EW.map_iff.mpr (mrel_insert hm "environment" (resolveEnvItems_ew hl .seqNil))
+      | seqCons e1 e2 => exact EW.map_iff.mpr (mrel_insert hm "environment" (resolveEnvItems_ew hl (.seqCons e1 e2)))
+      | _ => exact EW.map_iff.mpr hm
+  | _ => exact ⟨he', wx, wy⟩
+
+theorem resolveServicesEnv_mrel {env env' : List (String × String)} (hl : LookupSame env env') {a b : KVs}
+    (h : MRel a b) : MRel (resolveServicesEnv env a) (resolveServicesEnv env' b) := by
+  simp only [resolveServicesEnv]
+  cases ha : lookup "services" a with
+  | none => rw [mrel_lookup_none h ha]; exact h
+  | some u =>
+    obtain ⟨u', hb, e, wu, wu'⟩ := mrel_lookup_some h ha
+    rw [hb]
+    cases e with
+    | map h1 h2 =>
+      exact mrel_insert h "services" (EW.map_iff.mpr (mapVals_mrel _ _ (fun x y => resolveServiceEnv_ew hl)
+        ⟨⟨h1, h2⟩, WF.map_iff.mp wu, WF.map_iff.mp wu'⟩))
+    | _ => exact h
+
+/-- **`ResolveEnvironment(dict, environment)`** (services, secrets, configs) treats two spellings of the model and of the
+environment alike, and keeps keys distinct -/
+theorem resolveEnvironment_mrel {env env' : List (String × String)} (hl : LookupSame env env') {a b : KVs}
+    (h : MRel a b) : MRel (resolveEnvironment env a) (resolveEnvironment env' b) := by
+  unfold resolveEnvironment Secrets.resolveConfigsEnv Secrets.resolveSecretsEnv
+  exact resolveSection_mrel _ _ hl (resolveSection_mrel _ _ hl (resolveServicesEnv_mrel hl h))
+
 /-- what is still assumed of the stages without a whole-tree order-independence theorem.  One field per stage; each is the
 statement "two spellings of one tree are treated alike, and keys stay distinct" for that stage as the pipeline runs it.
 `defaultsWF` / `pathsWF` are only the preservation of distinct keys: the order independence of these two stages is proved
@@ -116,8 +279,6 @@ structure Residual (c c' : Cfg) : Prop where
   omitEmpty : RespectsV (omitEmpty c.omitPats)
   defaultsWF : ∀ kvs r, MWF kvs → C11.setDefaultValues Gen.defaultValues kvs = .ok r → WF r
   pathsWF : ∀ v r, WF v → Paths.resolve c.paths v = .ok r → WF r
-  /-- `ResolveEnvironment` with the two spellings of the environment -/
-  resolveEnv : ∀ a b, MRel a b → MRel (resolveEnvironment c.env a) (resolveEnvironment c'.env b)
   /-- `Normalize` with the two spellings of the environment (`normalize_stage_perm` covers the two mappings it ranges) -/
   normalize : ∀ a b, MRel a b →
     Same MEqv (ofC11 "normalize" (C11.normalize c.clean c.env a)) (ofC11 "normalize" (C11.normalize c'.clean c'.env b))
@@ -210,7 +371,8 @@ theorem processDocs_same {c c' : Cfg} (R : Residual c c') : ∀ {docs docs' : Li
     · exact ih h1
 
 /-- `loadYamlModel` after the loop -/
-theorem finishModel_same {c c' : Cfg} (R : Residual c c') (hc : SameButEnv c c') {d d' : Val} (hd : EW d d') :
+theorem finishModel_same {c c' : Cfg} (R : Residual c c') (hc : SameButEnv c c') (hl : LookupSame c.env c'.env)
+    {d d' : Val} (hd : EW d d') :
     Same MRel (finishModel c d) (finishModel c' d') := by
   obtain ⟨ho, hi, hp, hn, hm, hf⟩ := hc
   have e1 : Pipeline.defaultsStage c' = Pipeline.defaultsStage c := by funext z; simp only [Pipeline.defaultsStage, ho]
@@ -225,7 +387,7 @@ theorem finishModel_same {c c' : Cfg} (R : Residual c c') (hc : SameButEnv c c')
   cases he with
   | map h1 h2 =>
     simp only [envStage]
-    exact R.resolveEnv _ _ ⟨⟨h1, h2⟩, WF.map_iff.mp wx, WF.map_iff.mp wy⟩
+    exact resolveEnvironment_mrel hl ⟨⟨h1, h2⟩, WF.map_iff.mp wx, WF.map_iff.mp wy⟩
   | _ => simp only [envStage, Same, optO, ORel]
 
 /-- the tail of `load`: empty-model test, project name, `dict["name"] = …`, `Normalize` -/
@@ -274,8 +436,8 @@ theorem processDocs_congr {c c' : Cfg} (hc : SameButEnv c c') : ∀ (docs : List
 
 /-- **`Pipeline.load` composed from its stages**: for every configuration, documents and spellings of the environment —
 with what is still assumed of six stages named in `Residual` -/
-theorem load_order_independent_partial {c c' : Cfg} (hc : SameButEnv c c') (R : Residual c c') {docs docs' : List KVs}
-    (h : DocsEqv docs docs') : Same MEqv (load c docs) (load c' docs') := by
+theorem load_order_independent_partial {c c' : Cfg} (hc : SameButEnv c c') (hl : LookupSame c.env c'.env)
+    (R : Residual c c') {docs docs' : List KVs} (h : DocsEqv docs docs') : Same MEqv (load c docs) (load c' docs') := by
   have hlen : docs.isEmpty = docs'.isEmpty := by cases h <;> rfl
   unfold load
   rw [hlen]
@@ -284,7 +446,29 @@ theorem load_order_independent_partial {c c' : Cfg} (hc : SameButEnv c c') (R : 
   · simp only [he, Bool.false_eq_true, if_false]
     unfold loadYamlModel
     rw [processDocs_congr hc]
-    exact Same.bind (Same.bind (processDocs_same R h (EW.map_iff.mpr MRel.nil)) fun x y hxy => finishModel_same R hc hxy)
+    exact Same.bind (Same.bind (processDocs_same R h (EW.map_iff.mpr MRel.nil)) fun x y hxy => finishModel_same R hc hl hxy)
       fun a b hab => finishLoad_same R hc hab
+
+/-- the same with the environment given as a permutation (Go: `types.Mapping`, a map ranged in any order) -/
+theorem load_perm_partial {c c' : Cfg} (hc : SameButEnv c c') (hp : c'.env.Perm c.env) (hn : (c.env.map Prod.fst).Nodup)
+    (R : Residual c c') {docs docs' : List KVs} (h : DocsEqv docs docs') : Same MEqv (load c docs) (load c' docs') :=
+  load_order_independent_partial hc (lookupSame_of_perm hp hn) R h
+
+/-- a permutation of the entries of a document with distinct keys is a `DocsEqv` spelling of it (non-vacuity of the
+hypothesis: this is what `for k, v := range` in another order is) -/
+theorem docsEqv_of_perm {a b : KVs} (wa : MWF a) (wb : MWF b) (hp : b.Perm a) : DocsEqv [a] [b] := by
+  refine .cons ⟨?_, wa, wb⟩ .nil
+  have hl : ∀ k, lookup k b = lookup k a := fun k => CV.Merge.lookup_perm wa.1 hp k
+  refine ⟨fun k => by rw [hl k], fun k x y hx hy => ?_⟩
+  rw [hl k, hx] at hy; cases hy
+  exact Eqv.refl x (wa.2 k x hx)
+
+example : DocsEqv [[("a", Val.str "1"), ("b", Val.null)]] [[("b", Val.null), ("a", Val.str "1")]] :=
+  docsEqv_of_perm CV.Deep.Props.wf_labels
+    (WF.map_iff.mp (WF.of_perm (List.Perm.swap _ _ _) CV.Deep.Props.wf_labels)) (List.Perm.swap _ _ _)
+
+/-- non-vacuity of `LookupSame`: a permuted environment -/
+example : LookupSame [("A", "1"), ("B", "2")] [("B", "2"), ("A", "1")] :=
+  lookupSame_of_perm (List.Perm.swap _ _ _) (by decide)
 
 end CV.Det.Whole
